@@ -220,7 +220,10 @@ func (sh *shared) initPolicy(path string) string {
 	if p, ok := sh.initPol[path]; ok {
 		return p
 	}
-	if strings.HasPrefix(path, "github.com/liftbridge-io/liftbridge") {
+	if strings.HasPrefix(path, "github.com/liftbridge-io/liftbridge-api") {
+		return "zero" // protobuf-go generated code: init is descriptor registration through reflection
+	}
+	if path == "github.com/liftbridge-io/liftbridge" || strings.HasPrefix(path, "github.com/liftbridge-io/liftbridge/") {
 		return "run"
 	}
 	if p, ok := defaultInitPolicy[path]; ok {
